@@ -723,14 +723,23 @@ type chanOp struct {
 
 // chanFieldOf: if v is the channel loaded from struct field f returns f.
 func chanFieldOf(v ssa.Value) (*types.Var, ssa.Value) {
+	v = stripChanConv(v)
 	f, base := loadedField(v)
 	if f != nil {
+		// x.F.ch where F is a one-channel wrapper: the channel is identified by F
+		if of, ob := wrapperOwner(base); of != nil && chanWrapperInner(of.Type()) == f {
+			return of, ob
+		}
 		return f, base
 	}
 	// trivial getter call returning a field
 	if c, ok := v.(*ssa.Call); ok {
 		if g := calleeFn(c.Common()); g != nil {
 			if gf := trivialGetterField(g); gf != nil && len(c.Call.Args) >= 1 {
+				// x.F.getter() where F is a one-channel wrapper: the channel is identified by F
+				if of, ob := wrapperOwner(c.Call.Args[0]); of != nil && chanWrapperInner(of.Type()) == gf {
+					return of, ob
+				}
 				return gf, c.Call.Args[0]
 			}
 		}
@@ -753,6 +762,64 @@ func chanFieldOf(v ssa.Value) (*types.Var, ssa.Value) {
 			pf, pb = ef, eb
 		}
 		return pf, pb
+	}
+	return nil, nil
+}
+
+// stripChanConv removes the direction conversions of a channel value (chan T -> <-chan T).
+func stripChanConv(v ssa.Value) ssa.Value {
+	for {
+		ct, ok := v.(*ssa.ChangeType)
+		if !ok {
+			return v
+		}
+		if _, isCh := ct.Type().Underlying().(*types.Chan); !isCh {
+			return v
+		}
+		v = ct.X
+	}
+}
+
+// chanWrapperInner: t (or *t) is a module struct with exactly one channel-typed field (next to e.g. a sync.Once):
+// a small wrapper around one channel. Returns that field.
+func chanWrapperInner(t types.Type) *types.Var {
+	nt := namedOf(deref(t))
+	if nt == nil || nt.Obj().Pkg() == nil || !strings.HasPrefix(nt.Obj().Pkg().Path(), modPath) {
+		return nil
+	}
+	st, ok := nt.Underlying().(*types.Struct)
+	if !ok || st.NumFields() > 3 {
+		return nil
+	}
+	var inner *types.Var
+	for i := 0; i < st.NumFields(); i++ {
+		if _, isCh := st.Field(i).Type().Underlying().(*types.Chan); isCh {
+			if inner != nil {
+				return nil
+			}
+			inner = st.Field(i)
+		}
+	}
+	return inner
+}
+
+// wrapperOwner: v designates a field F of wrapper type of some struct value x (&x.F, or the loaded x.F): returns (F, x).
+func wrapperOwner(v ssa.Value) (*types.Var, ssa.Value) {
+	if f, base := fieldAddr(v); f != nil && chanWrapperInner(f.Type()) != nil {
+		return f, base
+	}
+	if f, base := loadedField(v); f != nil && chanWrapperInner(f.Type()) != nil {
+		return f, base
+	}
+	// a value receiver spilled into a cell: *t where t = local holding the loaded field
+	if u, ok := v.(*ssa.Alloc); ok {
+		for _, r := range *u.Referrers() {
+			if st, ok := r.(*ssa.Store); ok && st.Addr == ssa.Value(u) {
+				if f, base := loadedField(st.Val); f != nil && chanWrapperInner(f.Type()) != nil {
+					return f, base
+				}
+			}
+		}
 	}
 	return nil, nil
 }
@@ -795,11 +862,44 @@ func trivialGetterField(g *ssa.Function) *types.Var {
 // (module functions, tests excluded).
 func (p *Prog) chanOpsOnField(f *types.Var) []chanOp {
 	var out []chanOp
+	inner := chanWrapperInner(f.Type())
 	for _, fn := range p.SrcFns {
 		if p.isTestFn(fn) {
 			continue
 		}
 		eachInstr(fn, func(b *ssa.BasicBlock, i int, in ssa.Instruction) {
+			// a method of the one-channel wrapper called on this field: what the method does to its channel happens
+			// here, to this field
+			if inner != nil {
+				if cc := callOf(in); cc != nil && len(cc.Args) >= 1 {
+					if m := calleeFn(cc); m != nil && m.Blocks != nil && m.Signature.Recv() != nil && chanWrapperInner(m.Signature.Recv().Type()) == inner {
+						if of, ob := wrapperOwner(cc.Args[0]); of == f {
+							for _, mf := range withAnon(m) {
+								eachInstr(mf, func(_ *ssa.BasicBlock, _ int, y ssa.Instruction) {
+									switch z := y.(type) {
+									case *ssa.Send:
+										if g, _ := loadedField(stripChanConv(z.Chan)); g == inner {
+											out = append(out, chanOp{Kind: opSend, In: in, Fn: fn, Blocking: true, Base: ob})
+										}
+									case *ssa.UnOp:
+										if z.Op == token.ARROW {
+											if g, _ := loadedField(stripChanConv(z.X)); g == inner {
+												out = append(out, chanOp{Kind: opRecv, In: in, Fn: fn, Blocking: true, Base: ob})
+											}
+										}
+									case *ssa.Call, *ssa.Defer:
+										if isBuiltin(y, "close") {
+											if g, _ := loadedField(stripChanConv(callOf(y).Args[0])); g == inner {
+												out = append(out, chanOp{Kind: opClose, In: in, Fn: fn, Base: ob})
+											}
+										}
+									}
+								})
+							}
+						}
+					}
+				}
+			}
 			switch x := in.(type) {
 			case *ssa.Send:
 				if g, base := chanFieldOf(x.Chan); g == f {
@@ -1274,4 +1374,32 @@ func (p *Prog) concreteIfaceTypes(v ssa.Value, depth int) ([]types.Type, bool) {
 func isStringVal(v ssa.Value) bool {
 	b, ok := v.Type().Underlying().(*types.Basic)
 	return ok && b.Info()&types.IsString != 0
+}
+
+// closeSitesIn: the instructions of fn at which the latch field is closed - a close in fn itself, a call of a
+// one-channel wrapper's closing method on the field, or the call that is handed a closure of fn which closes it
+// (sync.Once.Do).
+func (p *Prog) closeSitesIn(fn *ssa.Function, field *types.Var) []ssa.Instruction {
+	var out []ssa.Instruction
+	for _, op := range p.chanOpsOnField(field) {
+		if op.Kind != opClose {
+			continue
+		}
+		if op.Fn == fn {
+			out = append(out, op.In)
+			continue
+		}
+		if op.Fn.Parent() == fn {
+			eachInstr(fn, func(_ *ssa.BasicBlock, _ int, in ssa.Instruction) {
+				if cc := callOf(in); cc != nil {
+					for _, a := range cc.Args {
+						if funcValue(a) == op.Fn {
+							out = append(out, in)
+						}
+					}
+				}
+			})
+		}
+	}
+	return out
 }
